@@ -102,10 +102,13 @@ func fmtCommandArg(n float64) string {
 	if math.IsNaN(n) || math.IsInf(n, 0) {
 		unsupported("NaN or infinity as a command argument")
 	}
+	if n == 0 && math.Signbit(n) {
+		unsupported("negative zero as a command argument") // "-0" before Redis 7.2, "0" after
+	}
 	lua514 := strconv.FormatFloat(n, 'g', 14, 64) // lua_tolstring
 	old := strconv.FormatFloat(n, 'g', 17, 64)    // Redis <= 7.0: "%.17g"
 	var modern string                             // Redis >= 7.2: ll2string or fpconv_dtoa
-	if n == math.Trunc(n) && math.Abs(n) < 9.2e18 && !(n == 0 && math.Signbit(n)) {
+	if n == math.Trunc(n) && math.Abs(n) < 4.6e18 {
 		modern = strconv.FormatInt(int64(n), 10)
 	} else {
 		modern = strconv.FormatFloat(n, 'g', -1, 64)
